@@ -70,6 +70,7 @@ func c11Process(c *vk.Ctx, r *rand.Rand, round int) bool {
 
 	port := 12000 + (round%50)*20
 	retained := fmt.Sprintf("203.0.113.50:%d", port)
+	legacy := round%2 == 1 // the retained endpoint is a legacy per-port key entry (":port", TCP+UDP)
 	kStay := KeySpec{"stay", pick(r, cipherNames), randSecret(r)}
 	kGo := KeySpec{"goes-away", pick(r, cipherNames), randSecret(r)}
 	mkConf := func(gen int, withGo bool) ConfSpec {
@@ -81,6 +82,12 @@ func c11Process(c *vk.Ctx, r *rand.Rand, round int) bool {
 			svc0.Keys = append(svc0.Keys, KeySpec{fmt.Sprintf("extra-%d-%d", gen, i), pick(r, cipherNames), randSecret(r)})
 		}
 		cf := ConfSpec{Services: []SvcSpec{svc0}}
+		if legacy {
+			cf = ConfSpec{}
+			for _, k := range svc0.Keys {
+				cf.Legacy = append(cf.Legacy, LegacyKey{k, port})
+			}
+		}
 		if r.Intn(2) == 0 { // other listeners come and go
 			svc1 := SvcSpec{Keys: []KeySpec{{fmt.Sprintf("other-%d", gen), pick(r, cipherNames), randSecret(r)}}}
 			for i := 0; i < 1+r.Intn(2); i++ {
@@ -332,11 +339,36 @@ func c11Process(c *vk.Ctx, r *rand.Rand, round int) bool {
 				next.Services[i].Keys = ks
 			}
 		}
-		c.Progress("C11 round=%d reload %d/%d", round, k, K)
+		conflict := false
+		if k%5 == 3 {
+			// a listener of the running configuration re-appears under the wildcard address: it cannot
+			// be bound while the old configuration is live, so this reload must fail and change nothing
+			for _, s := range cur.Services {
+				for _, l := range s.Listeners {
+					if l.Addr != retained && !conflict {
+						_, p, _ := net.SplitHostPort(l.Addr)
+						next = cur
+						next.Services = append(append([]SvcSpec(nil), cur.Services...), SvcSpec{Listeners: []LnSpec{{l.Type, "0.0.0.0:" + p}}, Keys: []KeySpec{{fmt.Sprintf("conflict-%d", k), "chacha20-ietf-poly1305", "x"}}})
+						conflict = true
+					}
+				}
+			}
+		}
+		c.Progress("C11 round=%d reload %d/%d conflict=%v", round, k, K, conflict)
 		w := window{a: time.Now()}
 		res, err := srv.Reload([]byte(next.YAML()), 60*time.Second)
 		w.b = time.Now()
 		windows = append(windows, w)
+		if conflict && err == nil {
+			if res == "failed" {
+				c.Count("reloads_refused_for_bind_conflict", 1)
+			} else {
+				cur = next
+				c.Count("reloads", 1)
+			}
+			time.Sleep(time.Duration(60+r.Intn(200)) * time.Millisecond)
+			continue
+		}
 		if err != nil || res != "ok" {
 			c.Violation("C11/valid-reload-failed", map[string]any{"reload": k, "result": res, "err": fmt.Sprint(err), "log": srv.LogTail(2000)})
 			close(stop)
